@@ -65,7 +65,8 @@ REQUIRED = dict(
              'failpoint-fired:temperature', 'failpoint-fired:chemistry', 'failpoint-fired:contribution',
              'valid-after-invalid-judged', 'errors:uniform', 'errors:per-bin', 'rows:shuffled',
              'native:linear', 'native:log', 'exact-fit:code-residual-zero', 'ndim:1', 'ndim:5',
-             'reuse:set_observed', 'reuse:settings-changed', 'reuse:fit-2-judged', 'pair:turn-judged'])
+             'reuse:set_observed', 'reuse:settings-changed', 'reuse:fit-2-judged', 'pair:turn-judged',
+             'observation-parameter-fitted'])
 SAMPLERS = ['nestle', 'multinest', 'polychord']
 
 _fp = {'armed': None}
@@ -347,8 +348,9 @@ def judge(ctx, sampler, spec, decls, layout, y, sigma, script, metas, call, obs)
         if label == 'gray':
             ctx.event('domain-skip:between-valid-and-invalid-zone')
             continue
-        sh = L.shadow_eval(spec, [(d['name'], L.to_value(d, t)) for d, t in zip(decls, theta)],
+        sh = L.shadow_eval(spec, [(d['name'], L.to_value(d, t)) for d, t in zip(decls, theta) if d['comp'] != 'observation'],
                             restricted_to=np.sort(layout['c']) if ncontrib > 1 else None)
+        y_here = y + sum(L.to_value(d, t) for d, t in zip(decls, theta) if d['name'] == 'obs_offset')
         if 'rejected' in sh:
             ctx.check('shadow-accepts-valid-vector', False, rejected=sh['rejected'], theta=theta, **base)
             continue
@@ -363,8 +365,8 @@ def judge(ctx, sampler, spec, decls, layout, y, sigma, script, metas, call, obs)
         if sh.get('cutoff_differs'):
             ctx.event('domain-skip:licensed-tau-cutoff-differs')
             continue
-        want, norm, chi2, r = L.gaussian_loglike(y, m, sigma)
-        atol = L.loglike_tolerance(y, m, sigma, norm, chi2)
+        want, norm, chi2, r = L.gaussian_loglike(y_here, m, sigma)
+        atol = L.loglike_tolerance(y_here, m, sigma, norm, chi2)
         ctx.close('loglike-equals-gaussian', got, want, 0.0, atol=atol, chi2=chi2, norm=norm, label=label, theta=theta,
                   code_chisq=diag.get('chisq'), code_residual_all_zero=diag.get('code_residual_all_zero'),
                   got_is_nan=bool(got != got), faults_before=faults_so_far, **base)
@@ -399,8 +401,15 @@ def wl_sequence(ctx, rng):
         ctx.observe('errors:per-bin')
     y = mt + sigma * rng.normal(0, 1, K) * float(rng.choice([0.3, 1.0, 3.0]))
     shuffle = bool(rng.random() < 0.7)
-    obs, order = L.make_observation(rng, layout, y, sigma, shuffle=shuffle)
+    with_offset = bool(rng.random() < 0.3)
+    obs, order = L.make_observation(rng, layout, y, sigma, shuffle=shuffle, with_offset=with_offset)
     ctx.observe('rows:shuffled' if shuffle and not np.all(np.diff(order) > 0) else 'rows:ordered')
+    if with_offset:
+        # the observation has a fitting parameter of its own (an additive zero point); it is fitted after the model's
+        s_ = float(np.mean(sigma)) * 5.0
+        entry = dict(comp='observation', valid=(-s_, s_))
+        decls = decls + [L.declare_prior(rng, 'obs_offset', entry, False, kind=['mode-linear', 'Uniform', 'Gaussian'][rng.integers(0, 3)])]
+        ctx.observe('observation-parameter-fitted')
     observe_setup(ctx, spec, decls, layout, sampler)
     # ---- the scripted sequence
     cap = [d for d in decls if d['invalid'] is not None]
